@@ -1,4 +1,5 @@
 import GoSQLXModel.Driver.LoopsOp
+import GoSQLXModel.Driver.LspOp
 /-! Dispatch table of the line-protocol driver. Each op parses its payload, runs the executable
     model and prints a canonical one-line answer. -/
 namespace GoSQLXModel.Driver
@@ -7,6 +8,7 @@ def dispatch (op payload : String) : String :=
   match op with
   | "ping" => "pong " ++ payload
   | "loops" => loopsOp payload
+  | "lsp" => lspOp payload
   | _ => "bad-op"
 
 end GoSQLXModel.Driver
